@@ -131,3 +131,102 @@ Qed.
 (* the excluded case: public and PKE-public ids share the header (id_hdr equal), so nothing is claimed there *)
 Example C13_domain_separation_not_claimed_for_pke : id_hdr KPublic = id_hdr KPkePublic /\ id_hdr KSecret = id_hdr KPkeSecret.
 Proof. split; reflexivity. Qed.
+
+(* ================= KeyId equality / order / hash (added after the first audit) ================= *)
+From PV Require Import KeyIdRules.
+From PV.Gen Require Import KeyIdImpls.
+Local Open Scope string_scope.
+Local Open Scope list_scope.
+
+(* three 33-byte ids: a < b (last byte), b < c (first byte) *)
+Definition id_a : bytes := repeat x11 33.
+Definition id_b : bytes := repeat x11 32 ++ [x12].
+Definition id_c : bytes := x12 :: repeat x00 32.
+(* a real id, computed by the model from a key: the toy k4 lid of key32 *)
+Definition id_k : bytes := Eval vm_compute in match key_id toy B4 KLocal key32 with Ok i => i | _ => [] end.
+Example ids_are_ids : length id_a = 33 /\ length id_b = 33 /\ length id_c = 33 /\ length id_k = 33.
+Proof. splits; reflexivity. Qed.
+
+(* lower bounds only: the table is regenerated from id.rs *)
+Example C13_keyid_impls_delegate_to_bytes_nonvacuous :
+  Nat.leb 1 (length gen_keyid_fields) = true /\ Nat.leb 5 (length gen_keyid_impls) = true /\
+  In ("PartialEq", "eq", "self.id==other.id") gen_keyid_impls /\
+  In ("Ord", "cmp", "self.id.cmp(&other.id)") gen_keyid_impls /\
+  In ("core::hash::Hash", "hash", "self.id.hash(state);") gen_keyid_impls /\
+  In ("PartialOrd", "partial_cmp", "Some(self.cmp(other))") gen_keyid_impls.
+Proof.
+  destruct C13_keyid_impls_delegate_to_bytes as (F & I). rewrite F, I.
+  splits; try reflexivity; cbn; tauto.
+Qed.
+(* the tie is live: an impl comparing something else (say the phantom marker only) is not the expected table *)
+Example C13_keyid_impls_delegate_to_bytes_nonvacuous_live :
+  map (fun r => if String.eqb (snd (fst r)) "eq" then (fst r, "true") else r) gen_keyid_impls <> expected_keyid_impls /\
+  ("pub(crate)id:[u8;33],pub extra:u8,_key:PhantomData<(V,K)>," :: nil) <> expected_keyid_fields.
+Proof. split; vm_compute; discriminate. Qed.
+
+Example C13_keyid_eq_is_byte_equality_nonvacuous :
+  keyid_eq id_a id_a = true /\ keyid_eq id_a id_b = false /\ keyid_eq id_a (take 32 id_a) = false /\
+  (keyid_eq id_k id_k = true) /\ (forall x, keyid_eq id_k x = true -> x = id_k).
+Proof.
+  splits.
+  - apply (proj2 (C13_keyid_eq_is_byte_equality id_a id_a)). reflexivity.
+  - destruct (keyid_eq id_a id_b) eqn:E; [|reflexivity].
+    apply (proj1 (C13_keyid_eq_is_byte_equality _ _)) in E. vm_compute in E. discriminate E.
+  - vm_compute. reflexivity.
+  - apply (proj2 (C13_keyid_eq_is_byte_equality id_k id_k)). reflexivity.
+  - intros x H. symmetry. apply (proj1 (C13_keyid_eq_is_byte_equality _ _)). exact H.
+Qed.
+
+Example C13_keyid_ord_consistent_with_eq_nonvacuous :
+  keyid_cmp id_a id_a = Eq /\ keyid_cmp id_a id_b <> Eq /\ keyid_cmp id_a id_b = Lt /\ keyid_eq id_a id_b = false.
+Proof.
+  splits.
+  - apply (proj2 (C13_keyid_ord_consistent_with_eq id_a id_a)). vm_compute. reflexivity.
+  - intros H. apply (proj1 (C13_keyid_ord_consistent_with_eq _ _)) in H. vm_compute in H. discriminate H.
+  - vm_compute. reflexivity.
+  - vm_compute. reflexivity.
+Qed.
+
+Example C13_keyid_cmp_antisymmetric_nonvacuous :
+  keyid_cmp id_a id_b = Lt /\ keyid_cmp id_b id_a = Gt /\ keyid_cmp id_c id_k = CompOpp (keyid_cmp id_k id_c).
+Proof.
+  assert (H : keyid_cmp id_a id_b = Lt) by (vm_compute; reflexivity).
+  splits; [exact H| |apply C13_keyid_cmp_antisymmetric].
+  rewrite (C13_keyid_cmp_antisymmetric id_a id_b), H. reflexivity.
+Qed.
+
+Example C13_keyid_cmp_transitive_nonvacuous :
+  keyid_cmp id_a id_b = Lt /\ keyid_cmp id_b id_c = Lt /\ keyid_cmp id_a id_c = Lt /\
+  (* the order is lexicographic on bytes, not numeric on some hash: first byte decides *)
+  keyid_cmp id_c (x13 :: repeat x00 32) = Lt.
+Proof.
+  assert (H1 : keyid_cmp id_a id_b = Lt) by (vm_compute; reflexivity).
+  assert (H2 : keyid_cmp id_b id_c = Lt) by (vm_compute; reflexivity).
+  splits; [exact H1|exact H2|exact (C13_keyid_cmp_transitive id_a id_b id_c H1 H2)|vm_compute; reflexivity].
+Qed.
+
+(* a concrete hasher: FNV-style fold over the bytes into N *)
+Definition fnv (bs : bytes) : N := fold_left (fun h b => N.modulo (N.lxor h (b2n b) * 16777619) (2 ^ 32))%N bs 2166136261%N.
+Example C13_keyid_hash_respects_eq_nonvacuous :
+  fnv id_k = fnv (take 33 (id_k ++ id_a)) /\ fnv id_a <> fnv id_b.
+Proof.
+  split; [|vm_compute; discriminate].
+  apply (C13_keyid_hash_respects_eq N fnv). vm_compute. reflexivity.
+Qed.
+(* FINDING (WRONG-REASON, mild): the statement is congruence of Leibniz equality (keyid_eq a b = true gives a = b,
+   then ANY function agrees on a and b); it holds of every type with a reflected equality and says nothing of the
+   Hash impl in id.rs.  The only content about the source is the row ("core::hash::Hash","hash","self.id.hash(state);")
+   of C13_keyid_impls_delegate_to_bytes.  Same remark for C13_keyid_eq_is_byte_equality: [keyid_eq] is [beq] by
+   definition, so the theorem is Bytes.beq_eq. *)
+Lemma C13_keyid_hash_respects_eq_is_congruence :
+  forall (A H : Type) (eqb : A -> A -> bool), (forall x y, eqb x y = true -> x = y) ->
+  forall (hasher : A -> H) a b, eqb a b = true -> hasher a = hasher b.
+Proof. intros A H eqb R hasher a b E. apply R in E. subst. reflexivity. Qed.
+Lemma C13_keyid_eq_is_beq : keyid_eq = beq.
+Proof. reflexivity. Qed.
+
+Example C13_premises_satisfiable_nonvacuous :
+  exists O, laws O /\ ed_pk_weak (ed_pk O key32) = false /\ na_point_valid (ed_pk O key32) = true.
+Proof.
+  destruct C13_premises_satisfiable as (O & L & A & B & _). exists O. splits; [exact L|apply A|apply B].
+Qed.
